@@ -7,6 +7,7 @@ from abc import abstractmethod, ABC
 from typing import Iterator
 
 from emu_base import HamiltonianType
+from emu_base import _verif
 import torch
 from emu_mps.mpo import MPO
 
@@ -445,6 +446,13 @@ def make_H(
 
     """
 
+    if _verif.enabled():
+        _verif.emit(
+            "h_make",
+            matrix=interaction_matrix,
+            htype=hamiltonian_type,
+            dim=dim,
+        )
     if hamiltonian_type == HamiltonianType.Rydberg:
         return MPO(
             list(RydbergHamiltonianMPOFactors(interaction_matrix, dim=dim)),
@@ -489,6 +497,15 @@ def update_H(
         Defaults to a zero tensor.
     """
 
+    if _verif.enabled():
+        _verif.emit(
+            "h_update",
+            omega=omega,
+            delta=delta,
+            phi=phi,
+            noise_abs=float(noise.abs().sum()),
+            nfactors=len(hamiltonian.factors),
+        )
     if noise.shape not in {(2, 2), (3, 3)}:
         raise ValueError(
             f"noise must have shape (2, 2) or (3, 3), got {tuple(noise.shape)}"
